@@ -529,15 +529,22 @@ theorem unflatten_unfold (store : List (List V × Nest β)) (vals : List (List V
   simp only [Gen.unflatten, Gen.Default.unflatten]
   rfl
 
-/-- **`_unflatten`**: the translated loop (pop the last argument, for every remaining combination replace the entries
-`p + (v,)` by the tuple of them, missing ones standing as `all_nan`; finally `store.pop(())`) returns the nested tuple
-of the hand-written `Core.unflatten` over the dict's lookup function — provided no argument lists a value twice (a
-popped key is gone: a repeated value would read the default the second time) and, when there is no argument at all,
-the store has the entry `()` -/
-theorem unflatten_refines (store : List (List V × Nest β)) (vals : List (List V)) (dflt : Nest β)
+theorem unflatten_unfold_default (store : List (List V × Nest β)) (vals : List (List V)) (dflt : Nest β) :
+    Gen.Default.unflatten store vals dflt
+      = match Py.dictGet (Py.whilePopLast vals store (body dflt)) [] with
+        | none => .error .keyError
+        | some x => .ok x := by
+  simp only [Gen.Default.unflatten]
+  rfl
+
+theorem unflatten_of_unfold (u : Except PyErr (Nest β)) (store : List (List V × Nest β)) (vals : List (List V))
+    (dflt : Nest β)
+    (hu : u = match Py.dictGet (Py.whilePopLast vals store (body dflt)) [] with
+        | none => .error .keyError
+        | some x => .ok x)
     (hnd : ∀ vs ∈ vals, vs.Nodup) (h0 : vals = [] → ∃ x, Py.dictGet store [] = some x) :
-    Gen.unflatten store vals dflt = .ok (Core.unflatten dflt vals (Py.dictGet store)) := by
-  rw [unflatten_unfold, unflatten_eq, Py.whilePopLast]
+    u = .ok (Core.unflatten dflt vals (Py.dictGet store)) := by
+  rw [hu, unflatten_eq, Py.whilePopLast]
   cases hr : vals.reverse with
   | nil =>
     have hv : vals = [] := by simpa using hr
@@ -548,6 +555,22 @@ theorem unflatten_refines (store : List (List V × Nest β)) (vals : List (List 
     have hv : vals = rinit.reverse ++ [last] := by
       have := congrArg List.reverse hr; simpa using this
     rw [while_sparse dflt last rinit (fun vs h => hnd vs (by rw [← List.mem_reverse, hr]; exact h)) store, hv]
+
+/-- **`_unflatten`**: the translated loop (pop the last argument, for every remaining combination replace the entries
+`p + (v,)` by the tuple of them, missing ones standing as `all_nan`; finally `store.pop(())`) returns the nested tuple
+of the hand-written `Core.unflatten` over the dict's lookup function — provided no argument lists a value twice (a
+popped key is gone: a repeated value would read the default the second time) and, when there is no argument at all,
+the store has the entry `()` -/
+theorem unflatten_refines (store : List (List V × Nest β)) (vals : List (List V)) (dflt : Nest β)
+    (hnd : ∀ vs ∈ vals, vs.Nodup) (h0 : vals = [] → ∃ x, Py.dictGet store [] = some x) :
+    Gen.unflatten store vals dflt = .ok (Core.unflatten dflt vals (Py.dictGet store)) :=
+  unflatten_of_unfold _ store vals dflt (unflatten_unfold store vals dflt) hnd h0
+
+/-- the same for the last-good text (a `process_results` that fell back calls it) -/
+theorem unflatten_refines_default (store : List (List V × Nest β)) (vals : List (List V)) (dflt : Nest β)
+    (hnd : ∀ vs ∈ vals, vs.Nodup) (h0 : vals = [] → ∃ x, Py.dictGet store [] = some x) :
+    Gen.Default.unflatten store vals dflt = .ok (Core.unflatten dflt vals (Py.dictGet store)) :=
+  unflatten_of_unfold _ store vals dflt (unflatten_unfold_default store vals dflt) hnd h0
 
 end unflat
 
@@ -592,7 +615,7 @@ theorem coreProcess_grid (pyNone : β) (nl : β → β) (s : Sweep) (hg : s.case
       = .ok (.nested (processNested s (s.locs.map f) ph)) := by
   have hlocs : s.locs = product s.comboVals := locs_grid s hg
   simp only [Gen.coreProcess, Gen.Default.coreProcess, Bool.false_eq_true, if_false, Bool.not_false, if_true]
-  rw [unflatten_refines _ _ _ hnd]
+  first | rw [unflatten_refines _ _ _ hnd] | rw [unflatten_refines_default _ _ _ hnd]
   · simp only [processNested, hg, unflatten_eq]
     congr 2
     apply nest_congr
@@ -627,7 +650,7 @@ theorem coreProcess_cases (pyNone : β) (nl : β → β) (s : Sweep) (rows : Lis
     · exact hnd vs h
   have h0 : (s.locs.map f)[0]? = some (f first) := by rw [hne]; rfl
   simp only [Gen.coreProcess, Gen.Default.coreProcess, Bool.false_eq_true, if_false, Bool.not_true, h0]
-  rw [unflatten_refines _ _ _ hnd']
+  first | rw [unflatten_refines _ _ _ hnd'] | rw [unflatten_refines_default _ _ _ hnd']
   · simp only [processNested, hr, unflatten_eq]
     congr 2
     apply nest_congr
